@@ -175,6 +175,36 @@ def forms_and_large(ctx, ids, cases):
     return out
 
 
+def lifetimes(ctx, ids, cases, qs):
+    """Object LIFETIMES as history: short-lived objects of identical sizes, dtype and extreme scores but
+    different interior scores are built, queried and dropped one after the other (CPython then hands the
+    next object's arrays the addresses of the previous one's): what an object answers depends on its own
+    scores only, never on an object that lived before it (seed C02-11: a module-level cache keyed by id)."""
+    import gc
+    import numpy as np
+    rnd = np.random.RandomState(ctx.seed + 1102)
+    out = []
+    g = gamma.ident()
+    for k in range(24 if ctx.tier == "quick" else 240):
+        n = 4 + (k // 12) % 2
+        o = {"pos": [0] + sorted(int(x) for x in rnd.randint(0, 4, n - 2)) + [3],
+             "neg": [0] + sorted(int(x) for x in rnd.randint(0, 4, n - 2)) + [3],
+             "ep": 0, "en": 0, "sc": ["pos", "neg"][(k // 6) % 2], "ec": ["pos", "neg"][(k // 3) % 2]}
+        cid = len(cases)
+        cases.append(o)
+        evs = []
+        ev = sd.make_ev(evs, ids, cid, g)
+        s = sd.new_event(ev, o, g)
+        if s is not None:
+            for m in ("topr", "tonr") + tuple(sd.METRICS[k % 4:k % 4 + 1]):
+                sd.threshold_event(ev, s, o, m, qs, g)
+        out += evs
+        del s
+        gc.collect()
+    ctx.extra["lifetime_histories"] = 24 if ctx.tier == "quick" else 240
+    return out
+
+
 def nontrivial_key(o):
     vals = list(o["pos"]) + list(o["neg"])
     if len(set(vals)) < len(vals) or o["ep"] or o["en"]:
@@ -204,6 +234,7 @@ def run(ctx: core.Ctx, prefixes=PREFIXES):
         if k:
             ctx.nontrivial.add(k)
     events += forms_and_large(ctx, ids, cases)
+    events += lifetimes(ctx, ids, cases, qs)
     for e in events[:2]:
         ctx.sample(e)
     ctx.judge("Trace_C02", events, cases=cases, batch=1500)
